@@ -1168,6 +1168,21 @@ class _Fn:
                 return True
             if isinstance(n, ast.Assign) and any(isinstance(t, ast.Name) and t.id == nm for t in n.targets) and isinstance(n.value, ast.BinOp):
                 return True
+            # index found by a search expression: next((i for i, x in enumerate(xs) if …), None) / xs.index(…) / len(xs) - k
+            if isinstance(n, (ast.Assign, ast.NamedExpr)) and any(isinstance(t, ast.Name) and t.id == nm for t in (n.targets if isinstance(n, ast.Assign) else [n.target])):
+                v = n.value
+                if isinstance(v, ast.Call) and isinstance(v.func, ast.Name) and v.func.id == "next" and v.args and isinstance(v.args[0], ast.GeneratorExp):
+                    g = v.args[0]
+                    it = g.generators[0].iter
+                    if isinstance(it, ast.Call) and isinstance(it.func, ast.Name) and it.func.id in ("enumerate", "range"):
+                        tg = g.generators[0].target
+                        idx = tg.elts[0] if isinstance(tg, ast.Tuple) and it.func.id == "enumerate" else tg
+                        if isinstance(idx, ast.Name) and isinstance(g.elt, ast.Name) and g.elt.id == idx.id:
+                            return True
+                if isinstance(v, ast.Call) and isinstance(v.func, ast.Attribute) and v.func.attr == "index":
+                    return True
+                if isinstance(v, ast.Call) and isinstance(v.func, ast.Name) and v.func.id == "len":
+                    return True
         return False
 
     def _tuple_return_classes(self, value):
